@@ -36,6 +36,12 @@ type System struct {
 	MaxDepth  int
 	MaxStates int
 	Workers   int
+	// Persistent: every state is reached on ONE long-lived operator process (World.Proc): the
+	// search keeps event paths instead of world copies and rebuilds a state by replaying its path
+	// from Init on a fresh world, so in-memory state of the real controllers follows the history.
+	// States are still merged by World.Canon (store, cache owner sets, budgets, notes) - hidden
+	// in-memory state is not part of the key.
+	Persistent bool
 }
 
 // BFSViolation is a violating transition/state with the event path from Init.
@@ -61,11 +67,13 @@ type node struct {
 	w      *World
 	parent int
 	ev     string
+	evf    Event // persistent mode: the event itself, to replay the path
 }
 
 type expansion struct {
 	parent int
 	ev     string
+	evf    Event
 	w      *World
 	key    [32]byte
 	finds  []Finding
@@ -80,12 +88,26 @@ func BFS(sys *System) *BFSResult {
 		workers = runtime.GOMAXPROCS(0)
 	}
 	init := sys.Init()
+	if sys.Persistent && init.Proc == nil {
+		init.LongLived()
+	}
 	nodes := []node{{w: init, parent: -1}}
 	seen := map[[32]byte]bool{sha256.Sum256([]byte(init.Canon())): true}
 	path := func(i int) []string {
 		var p []string
 		for i >= 0 && nodes[i].parent >= 0 {
 			p = append(p, nodes[i].ev)
+			i = nodes[i].parent
+		}
+		for l, r := 0, len(p)-1; l < r; l, r = l+1, r-1 {
+			p[l], p[r] = p[r], p[l]
+		}
+		return p
+	}
+	evPath := func(i int) []Event {
+		var p []Event
+		for i >= 0 && nodes[i].parent >= 0 {
+			p = append(p, nodes[i].evf)
 			i = nodes[i].parent
 		}
 		for l, r := 0, len(p)-1; l < r; l, r = l+1, r-1 {
@@ -122,14 +144,26 @@ func BFS(sys *System) *BFSResult {
 				defer wg.Done()
 				defer func() { <-sem }()
 				src := nodes[ni].w
+				var pathEvs []Event
+				if sys.Persistent {
+					pathEvs = evPath(ni)
+					src = rebuild(sys, pathEvs)
+				}
 				evs := sys.Events(src)
 				exps := make([]expansion, 0, len(evs))
 				for _, ev := range evs {
-					nw := src.Clone()
+					var nw, before *World
+					if sys.Persistent {
+						nw = rebuild(sys, pathEvs)
+						before = nw.Clone()
+					} else {
+						nw = src.Clone()
+						before = src
+					}
 					pass := ev.Apply(nw)
 					var finds []Finding
 					if sys.Check != nil {
-						finds = sys.Check(src, ev, pass, nw)
+						finds = sys.Check(before, ev, pass, nw)
 					}
 					if pass != nil && pass.Panic != "" {
 						finds = append(finds, Finding{Monitor: "no-panic", Identity: "panic", Message: "panic in pass: " + pass.Panic})
@@ -141,7 +175,11 @@ func BFS(sys *System) *BFSResult {
 					if len(finds) > 0 && pass != nil {
 						tr = pass.Trace()
 					}
-					exps = append(exps, expansion{parent: ni, ev: ev.Name, w: nw, key: sha256.Sum256([]byte(nw.Canon())), finds: finds, trace: tr})
+					ex := expansion{parent: ni, ev: ev.Name, w: nw, key: sha256.Sum256([]byte(nw.Canon())), finds: finds, trace: tr}
+					if sys.Persistent {
+						ex.w, ex.evf = nil, ev
+					}
+					exps = append(exps, ex)
 				}
 				out[fi] = exps
 			}(fi, ni)
@@ -165,7 +203,7 @@ func BFS(sys *System) *BFSResult {
 					continue
 				}
 				seen[ex.key] = true
-				nodes = append(nodes, node{w: ex.w, parent: ex.parent, ev: ex.ev})
+				nodes = append(nodes, node{w: ex.w, parent: ex.parent, ev: ex.ev, evf: ex.evf})
 				next = append(next, len(nodes)-1)
 				if sys.MaxStates > 0 && len(nodes) >= sys.MaxStates {
 					res.Capped = fmt.Sprintf("state bound %d reached", sys.MaxStates)
@@ -203,9 +241,24 @@ func (r *BFSResult) SortedEventCounts() []string {
 	return ks
 }
 
+// rebuild reaches the state at the end of path on a fresh world with one long-lived process.
+func rebuild(sys *System, path []Event) *World {
+	w := sys.Init()
+	if w.Proc == nil {
+		w.LongLived()
+	}
+	for _, ev := range path {
+		ev.Apply(w)
+	}
+	return w
+}
+
 // Replay re-applies a path of event names from Init and returns the findings of the last step.
 func Replay(sys *System, path []string) ([]Finding, []string, error) {
 	w := sys.Init()
+	if sys.Persistent && w.Proc == nil {
+		w.LongLived()
+	}
 	var finds []Finding
 	var trace []string
 	for i, name := range path {
@@ -221,6 +274,10 @@ func Replay(sys *System, path []string) ([]Finding, []string, error) {
 			return nil, trace, fmt.Errorf("replay divergence: event %q (step %d) is not enabled", name, i)
 		}
 		nw := w.Clone()
+		if sys.Persistent {
+			// keep the lineage (and its process): the copy is the 'before' snapshot
+			nw, w = w, nw
+		}
 		pass := ev.Apply(nw)
 		trace = append(trace, "== "+name)
 		if pass != nil {
